@@ -743,6 +743,12 @@ def w_classes(ctx: core.Ctx, arg):
         chk.check_absent(info, gen)
         for msg in sorted(gen_failed):
             ctx.extra.setdefault('generator_gaps', []).append(f'{key}: {msg}')
+        ctx.count('setget.scalars_checked', gen.setget_checked)
+        gen.setget_checked = 0
+        for member, was_set, got in gen.setget_mismatches[:50]:
+            ctx.witness(f'setget.{member}', f'{member}: the value {was_set} was assigned, the member reads {got}',
+                        {'class': key, 'member': member, 'assigned': was_set, 'reads': got})
+        del gen.setget_mismatches[:]
         for r in sorted(gen.setter_rejects):
             ctx.extra.setdefault('typed_setter_rejects_schema_conformant_value', []).append(r)
         for k, v in gen.strategy_use.items():
